@@ -56,7 +56,8 @@ class InterpolatedValue:
     def __init__(self, value):
         self.value = value
         self.is_sandboxed = is_sandbox_result(value)
-        if isinstance(value, Exception):
+        # A call that ended by exiting the interpreter failed as well
+        if isinstance(value, (Exception, SystemExit)):
             self.is_error = True
         # Sandboxes with exceptions become their exception
         elif isinstance(value, Sandbox) and value.exception:
